@@ -41,7 +41,25 @@ def fam_lock(ctx):
         at, births = held_analysis(b)
         hit = any(h.family in SYNC_FAMILIES for i in b.live_blocks() if b.blocks[i]["t"]["k"] == "Yield" for h in at.get(i, ()))
         (ctx.bad if hit else ctx.ok)(rule, [item], "sync guard across await" if hit else "no guard across await", b.loc())
-    return {"must_report": ["ST.lock|reentrant_bad", "ST.lock|across_await_bad"], "must_not_report": ["ST.lock|reentrant_ok", "ST.lock|across_await_ok"]}
+    # a second read() of a fair RwLock this task already read-holds (C11.R4 reentrant-read)
+    from .c11 import FAIR_FAMILIES, nonatomic_replacements
+    for item in ("reread_bad", "reread_ok"):
+        b = body(ctx, item)
+        at, births = held_analysis(b)
+        hit = False
+        for c in b.calls:
+            for h in at.get(c.bb) or ():
+                for (lock, mode, fam), (site, chain) in LS.call_acquires(c).items():
+                    if lock == h.lock and mode != "excl" and h.mode != "excl" and (fam in FAIR_FAMILIES or h.family in FAIR_FAMILIES):
+                        hit = True
+        (ctx.bad if hit else ctx.ok)(rule, [item], "re-entrant read of a fair RwLock" if hit else "no re-entrant read", b.loc())
+    # remove(k) then insert(k) on one concurrent map (C11.R10)
+    for item in ("replace_two_steps_bad", "replace_one_step_ok"):
+        b = body(ctx, item)
+        hit = bool(nonatomic_replacements(b))
+        (ctx.bad if hit else ctx.ok)(rule, [item], "overwrite in two map operations" if hit else "overwrite is one insert", b.loc())
+    return {"must_report": ["ST.lock|reentrant_bad", "ST.lock|across_await_bad", "ST.lock|reread_bad", "ST.lock|replace_two_steps_bad"],
+            "must_not_report": ["ST.lock|reentrant_ok", "ST.lock|across_await_ok", "ST.lock|reread_ok", "ST.lock|replace_one_step_ok"]}
 
 
 def fam_gate(ctx):
@@ -171,8 +189,26 @@ def fam_bounds(ctx):
             if any(c02.strict_input(t_, set()) for t_ in sk.taint):
                 hit = True
         (ctx.bad if hit else ctx.ok)("ST.bounds", [i], "input-derived index not proven in bounds" if hit else "every input-derived index proven in bounds", body(ctx, i).loc())
-    return {"must_report": ["ST.bounds|bounds_stale_guard_bad", "ST.bounds|bounds_unguarded_bad", "ST.bounds|bounds_callee_pre_bad"],
-            "must_not_report": ["ST.bounds|bounds_guarded_ok", "ST.bounds|bounds_callee_pre_ok"]}
+    # fields behind `&mut self`: a write (here or in a callee that got the reborrow) makes the field another value
+    fitems = ["bounds_field_write_bad", "bounds_field_write_ok", "bounds_field_callee_write_bad"]
+    fids = {body(ctx, i).id: i for i in fitems}
+    res2, _ = bounds.analyse_closure(ctx.prog, set(fids) | {body(ctx, "advance").id}, krate_prefix="verif_selftest")
+    for bid, i in fids.items():
+        hit = any(not sk.proven and sk.kind == "bounds" for sk in res2[bid].sinks)
+        (ctx.bad if hit else ctx.ok)("ST.bounds", [i], "index by a field not proven in bounds" if hit else "index by a field proven in bounds", body(ctx, i).loc())
+    # division by an input value, str offsets
+    ditems = ["div_unguarded_bad", "div_guarded_ok", "str_prefix_bad", "str_find_ok", "str_find_closure_plus_one_bad", "str_get_ok"]
+    dids = {body(ctx, i).id: i for i in ditems}
+    res3, _ = bounds.analyse_closure(ctx.prog, set(dids), krate_prefix="verif_selftest")
+    for bid, i in dids.items():
+        kind = "divzero" if i.startswith("div_") else "charboundary"
+        hit = any(not sk.proven and sk.kind == kind for sk in res3[bid].sinks)
+        (ctx.bad if hit else ctx.ok)("ST.bounds", [i], "%s not proven" % kind if hit else "%s proven (or no such operation)" % kind, body(ctx, i).loc())
+    return {"must_report": ["ST.bounds|bounds_stale_guard_bad", "ST.bounds|bounds_unguarded_bad", "ST.bounds|bounds_callee_pre_bad",
+                            "ST.bounds|bounds_field_write_bad", "ST.bounds|bounds_field_callee_write_bad", "ST.bounds|div_unguarded_bad",
+                            "ST.bounds|str_prefix_bad", "ST.bounds|str_find_closure_plus_one_bad"],
+            "must_not_report": ["ST.bounds|bounds_guarded_ok", "ST.bounds|bounds_callee_pre_ok", "ST.bounds|bounds_field_write_ok", "ST.bounds|div_guarded_ok",
+                                "ST.bounds|str_find_ok", "ST.bounds|str_get_ok"]}
 
 
 def fam_errflow(ctx):
